@@ -676,10 +676,51 @@ TABULATED = {
 
 
 
+def _parse_state(facts, it, T):
+    """a model parser state: whatever ParseState::new() builds, with model tables in the places the rules look at"""
+    from .den import Unanalysable, VecObj
+    d = 'toml_edit::parser::state::ParseState::new'
+    if not facts.has_body(d):
+        raise Unanalysable('ParseState::new not found')
+    st = it.apply_fn(facts.body(d), [])
+    if not (isinstance(st, tuple) and len(st) == 3 and st[0] == 'struct' and isinstance(st[2], dict)):
+        raise Unanalysable('ParseState::new does not evaluate to a struct')
+    for f in ('root', 'current_table', 'current_table_path', 'current_table_position'):
+        if f not in st[2]:
+            raise Unanalysable(f'ParseState has no field `{f}`')
+    st[2]['root'] = T(False, False, 'root')
+    st[2]['current_table'] = T(True, True, 'fresh')
+    st[2]['current_table_path'] = VecObj([])
+    st[2]['current_table_position'] = 4
+    return st
+
+
+def _attached_as(facts, st):
+    """how finalize_table attaches the current table of `st`: 'table' (inserted under its name), 'array' (pushed to an array of tables), None"""
+    from .den import RecInterp, Evaluator, EvalPanic, Unanalysable, VecObj
+    I = 'toml_edit::item::Item::'
+    d = 'toml_edit::parser::state::ParseState::finalize_table'
+    if not facts.has_body(d):
+        return None
+    aot = ('ctor', I + 'ArrayOfTables', (('struct', 'toml_edit::array_of_tables::ArrayOfTables', {'values': VecObj([]), 'span': ('ctor', 'core::option::Option::None')}),))
+    it = RecInterp(Evaluator(facts), {'insert'}, {'descend_path', 'duplicate_key'}, stubs={'entry_format': ('ctor', 'toml_edit::table::Entry::Vacant', (('vacant',),)), 'or_insert': aot})
+    it.model_mem = True
+    try:
+        it.apply_fn(facts.body(d), [st])
+    except (EvalPanic, Unanalysable):
+        return None
+    if aot[2][0][2]['values'].items:
+        return 'array'
+    if any(nm == 'insert' for nm, _ in it.calls):
+        return 'table'
+    return None
+
+
 def header_start_model(facts):
     """ParseState::start_table / start_array_table evaluated on a model parser state, once with nothing under the header's name and once with a
     header-implied table there (which start_table adopts).  Yields (fn, case, outcome) where outcome is None when the function refuses, an
-    'unanalysable: ..' / 'panic: ..' string, or {'span', 'implicit', 'dotted', 'decor', 'position', 'path', 'adopted'} describing the current table afterwards."""
+    'unanalysable: ..' / 'panic: ..' string, or {'span', 'implicit', 'dotted', 'decor', 'position', 'path', 'adopted', 'is_array'} describing the current
+    table afterwards ('is_array': how finalize_table would attach it)."""
     from .den import RecInterp, Evaluator, EvalPanic, Unanalysable, VecObj
     I = 'toml_edit::item::Item::'
     SOME, NONE = 'core::option::Option::Some', 'core::option::Option::None'
@@ -695,11 +736,10 @@ def header_start_model(facts):
         for case in ('nothing there', 'a header-implied table there'):
             existing = ('ctor', NONE) if case == 'nothing there' else ('ctor', SOME, (('ctor', I + 'Table', (T(True, False, 'adopted'),)),))
             aot = ('ctor', I + 'ArrayOfTables', (('struct', 'toml_edit::array_of_tables::ArrayOfTables', {'values': VecObj([])}),))
-            st = ('struct', 'toml_edit::parser::state::ParseState', {'root': T(False, False, 'root'), 'current_table': T(True, True, 'fresh'), 'current_table_path': VecObj([]),
-                                                                   'current_table_position': 4, 'current_is_array': fn == 'start_table', 'trailing': ('ctor', NONE)})
             it = RecInterp(Evaluator(facts), set(), {'descend_path'}, stubs={'remove': existing, 'or_insert': aot})
             path = VecObj([('struct', 'toml_edit::key::Key', {'key': 'a'}), ('struct', 'toml_edit::key::Key', {'key': 'b'})])
             try:
+                st = _parse_state(facts, it, T)
                 r = it.apply_fn(b, [st, path, ('new-decor',), ('range', 10, 15)])
             except EvalPanic as ex:
                 yield fn, case, f'panic: {ex}'
@@ -713,10 +753,10 @@ def header_start_model(facts):
             ct = st[2]['current_table']
             f = ct[2] if isinstance(ct, tuple) and len(ct) == 3 else {}
             unopt = lambda v: (v[2][0] if len(v) > 2 else None) if isinstance(v, tuple) and v[:1] == ('ctor',) and v[1].startswith('core::option::Option::') else v
-            yield fn, case, {'span': unopt(f.get('span')), 'implicit': f.get('implicit'), 'dotted': f.get('dotted'), 'decor': f.get('decor'), 'position': unopt(f.get('doc_position')),
-                             'adopted': f.get('tag') == 'adopted', 'path': [k[2].get('key') for k in getattr(st[2]['current_table_path'], 'items', [])], 'is_array': st[2]['current_is_array'],
-                             'counter': st[2]['current_table_position']}
-
+            out = {'span': unopt(f.get('span')), 'implicit': f.get('implicit'), 'dotted': f.get('dotted'), 'decor': f.get('decor'), 'position': unopt(f.get('doc_position')),
+                   'adopted': f.get('tag') == 'adopted', 'path': [k[2].get('key') for k in getattr(st[2]['current_table_path'], 'items', [])], 'counter': st[2]['current_table_position']}
+            out['is_array'] = _attached_as(facts, st) == 'array'          # (this runs finalize_table on the state: last)
+            yield fn, case, out
 
 
 def finalize_model(facts):
@@ -739,8 +779,17 @@ def finalize_model(facts):
     tag_of = lambda item: item[2][0][2].get('tag') if isinstance(item, tuple) and len(item) == 3 and item[1] == I + 'Table' else None
 
     def run(path, is_array, entry=None, existing=None):
-        st = ('struct', 'toml_edit::parser::state::ParseState', {'root': T(False, 'root'), 'current_table': T(False, 'current', ('range', 10, 19)), 'current_table_path': VecObj(path),
-                                                               'current_table_position': 4, 'current_is_array': is_array, 'trailing': ('ctor', NONE)})
+        # the state finalize_table finds: what the header function left behind (whatever way it records that the section is a [[table]] element)
+        it0 = RecInterp(Evaluator(facts), set(), {'descend_path'}, stubs={'remove': ('ctor', NONE), 'or_insert': ('ctor', I + 'ArrayOfTables', (('struct', 'toml_edit::array_of_tables::ArrayOfTables', {'values': VecObj([])}),))})
+        st = _parse_state(facts, it0, lambda imp, dot, tag: T(imp, tag))
+        if path:
+            hd = 'toml_edit::parser::state::ParseState::' + ('start_array_table' if is_array else 'start_table')
+            if not facts.has_body(hd):
+                raise Unanalysable(f'{hd} not found')
+            it0.apply_fn(facts.body(hd), [st, VecObj(path), ('d',), ('range', 10, 19)])
+        cur = T(False, 'current', ('range', 10, 19))
+        st[2]['current_table'][2].clear()
+        st[2]['current_table'][2].update(cur[2])
         stubs = {}
         if entry is not None:
             stubs['entry_format'] = entry
@@ -807,8 +856,6 @@ def keyval_model(facts):
         for child, clabel in (((True, True), 'p is a dotted-key table'), ((True, False), 'p is a header-implied table')) if npath else ((None, ''),):
             for occ in (False, True):
                 case = label + (', ' + clabel if clabel else '') + (', key already there' if occ else ', key not there yet')
-                st = ('struct', 'toml_edit::parser::state::ParseState', {'root': T(False, False, 'root'), 'current_table': T(False, False, 'current', ('range', 10, 19)),
-                                                                       'current_table_path': VecObj([K('t')]), 'current_table_position': 4, 'current_is_array': False, 'trailing': ('ctor', NONE)})
                 entry = ('ctor', EN + ('Occupied' if occ else 'Vacant'), (('entry',),))
                 stubs = {'entry': entry, 'key': K('dup')}
                 if child is not None:
@@ -817,6 +864,9 @@ def keyval_model(facts):
                 it.model_mem = True
                 value = ('ctor', I + 'Table', (T(False, False, 'value', ('range', 30, 34)),))     # any item with a span of its own
                 try:
+                    st = _parse_state(facts, it, lambda imp, dot, tag: T(imp, dot, tag))
+                    st[2]['current_table'] = T(False, False, 'current', ('range', 10, 19))
+                    st[2]['current_table_path'] = VecObj([K('t')])
                     r = it.apply_fn(b, [st, VecObj([K('p')][:npath]), (K('k'), value)])
                 except EvalPanic as e:
                     yield case, f'panic: {e}'
